@@ -216,6 +216,10 @@ type mergeVal struct {
 	order  string // "lt" (stored older), "eq", "gt" (stored newer)
 	kempty bool   // incoming key is ""
 	isnt   bool   // incoming point is a node-type point
+	// second: the batch carries a second, unrelated point IN2 (1: after IN, 2: before IN)
+	second int
+	// tzero: the incoming point carries the zero time
+	tzero bool
 }
 
 func (v mergeVal) String() string {
@@ -242,6 +246,10 @@ type mergeOutcome struct {
 	execArgs int
 	// props: per successful exit "<entry calls>|<terms handed to the entry>|<commit before propagation>|<x: effects>"
 	props []string
+	// second: per successful exit of a two-point run "<Execs of IN2>|<problem>|<CRC(IN2) folds handed to the entry>|<terms>"
+	second []string
+	// zeroTest: the writer tested the incoming time for the zero value in a recognised form
+	zeroTest bool
 }
 
 func tbool(b bool) string {
